@@ -16,16 +16,33 @@ static u64 ir_heap_next = IR_HEAP_BASE;
 static u64 ir_obj_base[IR_MAX_OBJ], ir_obj_size[IR_MAX_OBJ]; static _Bool ir_obj_live[IR_MAX_OBJ]; static int ir_nobj;
 static u64 ir_bump(u64 n) {
   u64 p = ir_heap_next; IR_ASSERT(n < IR_HEAP_SIZE, "model heap: allocation larger than the model heap");
-  ir_heap_next += ((n + 15) & ~15ull) + 16; IR_ASSERT(ir_heap_next <= IR_MEM_END, "model heap exhausted (harness bound too small)");
+#ifdef IR_BUMP_SLOT
+  /* fixed-size slots: a symbolic allocation size must not make every later address symbolic */
+  IR_ASSERT(n <= IR_BUMP_SLOT, "model heap: allocation larger than the slot size (harness bound too small)");
+  ir_heap_next += IR_BUMP_SLOT + 16;
+#else
+  ir_heap_next += ((n + 15) & ~15ull) + 16;
+#endif
+  IR_ASSERT(ir_heap_next <= IR_MEM_END, "model heap exhausted (harness bound too small)");
   IR_ASSERT(ir_nobj < IR_MAX_OBJ, "model object table full (harness bound too small)");
   ir_obj_base[ir_nobj] = p; ir_obj_size[ir_nobj] = n; ir_obj_live[ir_nobj] = 1; ir_nobj++; return p; }
+#ifdef IR_BUMP_SLOT
+static int ir_obj_find(u64 p) { if (p < IR_HEAP_BASE) return -1; u64 k = (p - IR_HEAP_BASE) / (IR_BUMP_SLOT + 16ull); return (k < (u64)ir_nobj && k < IR_MAX_OBJ && ir_obj_base[k] == p) ? (int)k : -1; }
+#else
 static int ir_obj_find(u64 p) { for (int i = 0; i < IR_MAX_OBJ; i++) if (i < ir_nobj && ir_obj_base[i] == p) return i; return -1; }
+#endif
 static void ir_obj_free(u64 p) { int i = ir_obj_find(p); IR_ASSERT(i >= 0, "free of an address that is no allocated object"); if (i >= 0) { IR_ASSERT(ir_obj_live[i], "double free"); ir_obj_live[i] = 0; } }
 #ifdef IR_CHECK_OBJECTS
 void ir_check_access(u64 a, u64 n) {
   if (a < IR_HEAP_BASE) return;   /* globals, TLS and stack frames are not tracked */
+#ifdef IR_BUMP_SLOT
+  /* fixed-size slots: the object an address belongs to is found arithmetically (no search loop) */
+  u64 k = (a - IR_HEAP_BASE) / (IR_BUMP_SLOT + 16ull);
+  _Bool ok = k < IR_MAX_OBJ && k < (u64)ir_nobj && ir_obj_live[k] && a >= ir_obj_base[k] && a + n <= ir_obj_base[k] + ir_obj_size[k];
+#else
   _Bool ok = 0;
   for (int i = 0; i < IR_MAX_OBJ; i++) if (i < ir_nobj && ir_obj_live[i] && a >= ir_obj_base[i] && a + n <= ir_obj_base[i] + ir_obj_size[i]) ok = 1;
+#endif
   IR_ASSERT(ok, "heap access outside every live object (out of bounds or use after free)");
 }
 #endif
